@@ -852,9 +852,10 @@ def reference_model(p, inputs, changed_check=None, max_rounds=64):
         st.rel[r] = dict(d)
     deps = rel_deps(p, rules)
     order = sccs(sorted(p.relmap), lambda v: sorted({d for d, _ in deps[v]}))
-    stats = {"rounds": []}
+    stats = {"rounds": [], "rule_fire": {}}
+    rule_ids = {id(rb): i for i, rb in enumerate(rules)}
     for comp in order:
-        comp_rules = [(h, b) for h, b in rules if h.rel in comp]
+        comp_rules = [rb for rb in rules if rb[0].rel in comp]
         if not comp_rules:
             continue
         recursive = any(it.rel in comp for h, b in comp_rules for it in b if isinstance(it, (Clause, Neg, Agg)))
@@ -866,8 +867,12 @@ def reference_model(p, inputs, changed_check=None, max_rounds=64):
         while True:
             rounds += 1
             new = st.copy()
-            for h, b in comp_rules:
-                def emit(env, cond, h=h):
+            for rb in comp_rules:
+                h, b = rb
+                fire = []
+
+                def emit(env, cond, h=h, fire=fire):
+                    fire.append(cond)
                     t = tuple(_head_val(a, env) for a in h.args)
                     r = p.relmap[h.rel]
                     if r.lattice:
@@ -876,6 +881,7 @@ def reference_model(p, inputs, changed_check=None, max_rounds=64):
                     else:
                         new.rel[h.rel][t] = Or_(new.rel[h.rel].get(t, False), cond)
                 eval_body(p, b, st, {}, True, emit)
+                stats["rule_fire"][rule_ids[id(rb)]] = OrL(fire)
             if not recursive:
                 st = new
                 break
